@@ -312,3 +312,228 @@ func c06EachProduct(v ssa.Value, depth int, f func(prod *ssa.BinOp, x ssa.Value,
 		}
 	}
 }
+
+// ---------------------------------------------------------------------------
+// C06.forceeq: a value that is only rejected through d.Errorf keeps its rejected value under force
+//
+// Rule template: `if x == K { d.Errorf(...) }` (an arm that only reports and falls through): with
+// -o force=true Errorf returns, so x == K continues. Every index / slice bound in the same top-level
+// decoder function (its closures included, x may be a captured local) whose expression is linear in x
+// is evaluated at x = K: the result must be >= 0 (and below a constant array length), or the site must
+// be protected by a real (no-return) guard. Otherwise the crafted input that selects K faults under force.
+
+func c06ForceEq(r *fw.Run, p *fw.Program) {
+	ru := r.Rule("C06.forceeq", "where a decoder rejects a value only by `if x == K { d.Errorf }` (Errorf returns under force), no index or slice bound in the same decoder function (closures included) that is linear in x evaluates out of range at x = K without a real guard", 3)
+	errorf := p.Fn("(*pkg/decode.D).Errorf")
+	if errorf == nil {
+		ru.Undecided("anchor", "", "(*decode.D).Errorf not found")
+		return
+	}
+	// root cell of a value: the local variable (Alloc) it is loaded from, through closure captures
+	var rootCell func(fn *ssa.Function, v ssa.Value, depth int) ssa.Value
+	rootCell = func(fn *ssa.Function, v ssa.Value, depth int) ssa.Value {
+		if depth > 6 {
+			return nil
+		}
+		switch x := v.(type) {
+		case *ssa.Alloc:
+			return x
+		case *ssa.FreeVar:
+			vals, _ := freeVarBindings(fn, x)
+			if len(vals) == 1 && fn.Parent() != nil {
+				return rootCell(fn.Parent(), vals[0], depth+1)
+			}
+		}
+		return nil
+	}
+	loadCell := func(fn *ssa.Function, v ssa.Value) ssa.Value {
+		for {
+			switch x := v.(type) {
+			case *ssa.Convert:
+				v = x.X
+				continue
+			case *ssa.ChangeType:
+				v = x.X
+				continue
+			case *ssa.UnOp:
+				if x.Op == token.MUL {
+					return rootCell(fn, x.X, 0)
+				}
+			}
+			return nil
+		}
+	}
+	for _, fn := range p.FqFunctions() {
+		if !strings.HasPrefix(pkgRel(fn), "format") {
+			continue
+		}
+		for _, b := range fn.Blocks {
+			if len(b.Instrs) == 0 {
+				continue
+			}
+			ifi, ok := b.Instrs[len(b.Instrs)-1].(*ssa.If)
+			if !ok {
+				continue
+			}
+			bo, ok := ifi.Cond.(*ssa.BinOp)
+			if !ok || (bo.Op != token.EQL && bo.Op != token.NEQ) {
+				continue
+			}
+			var tv ssa.Value
+			var kc *ssa.Const
+			if c, ok := bo.Y.(*ssa.Const); ok {
+				tv, kc = bo.X, c
+			} else if c, ok := bo.X.(*ssa.Const); ok {
+				tv, kc = bo.Y, c
+			}
+			if kc == nil || kc.Value == nil || kc.Value.Kind() != constant.Int {
+				continue
+			}
+			K, exact := constant.Int64Val(kc.Value)
+			if !exact {
+				continue
+			}
+			armIdx := 0
+			if bo.Op == token.NEQ {
+				armIdx = 1
+			}
+			arm := b.Succs[armIdx]
+			if len(arm.Preds) != 1 || !armIsErrorfOnly(arm, errorf) {
+				continue
+			}
+			cell := loadCell(fn, tv)
+			key0 := fmt.Sprintf("%s|%s==%d", fw.ShortFn(fn), c06ValName(tv), K)
+			nSites := 0
+			bad := ""
+			badPos := ""
+			top := fw.Top(fn)
+			for _, sf := range fw.WithClosures(top) {
+				var env *fw.PolyEnv
+				fw.EachInstr(sf, func(ins ssa.Instruction) {
+					var idxs []ssa.Value
+					var alen int64 = -1
+					switch x := ins.(type) {
+					case *ssa.IndexAddr:
+						idxs = []ssa.Value{x.Index}
+						alen = c06ArrayLen(x.X.Type())
+					case *ssa.Index:
+						if _, isMap := x.X.Type().Underlying().(*types.Map); isMap {
+							return
+						}
+						idxs = []ssa.Value{x.Index}
+						alen = c06ArrayLen(x.X.Type())
+					case *ssa.Slice:
+						idxs = []ssa.Value{x.Low, x.High}
+					default:
+						return
+					}
+					for _, idx := range idxs {
+						if idx == nil {
+							continue
+						}
+						if _, isC := idx.(*ssa.Const); isC {
+							continue
+						}
+						// is idx a function of the tested variable only?
+						srcs := map[ssa.Value]bool{}
+						valueSources(idx, srcs, 0)
+						uses := false
+						others := false
+						for s := range srcs {
+							switch y := s.(type) {
+							case *ssa.Const, *ssa.BinOp, *ssa.Convert, *ssa.ChangeType, *ssa.Phi:
+								_ = y
+							case *ssa.UnOp:
+								if y.Op == token.MUL {
+									continue // its address is in srcs too
+								}
+								others = true
+							default:
+								if cell != nil && rootCell(sf, s, 0) == cell {
+									uses = true
+								} else if cell == nil && s == tv && sf == fn {
+									uses = true
+								} else {
+									others = true
+								}
+							}
+						}
+						if !uses || others {
+							continue
+						}
+						if sf == fn && cell == nil && !b.Dominates(ins.Block()) {
+							continue
+						}
+						if env == nil {
+							env = fw.NewPolyEnv(sf)
+						}
+						ip := fw.StripVersions(env.Of(idx))
+						atoms := ip.Atoms()
+						if len(atoms) != 1 || !c06Linear(ip, atoms[0]) {
+							continue
+						}
+						nSites++
+						val := ip.Coef(atoms[0])*K + ip.Const()
+						if val >= 0 && (alen < 0 || val < alen) {
+							continue
+						}
+						// a real guard at the site?
+						if env.Proves(ins.Block(), fw.Cmp{P: env.Of(idx), Rel: fw.GE}) && (alen < 0 || env.Proves(ins.Block(), fw.Cmp{P: env.Of(idx).Sub(fw.PConst(alen)), Rel: fw.LT})) {
+							continue
+						}
+						if bad == "" {
+							bad = fmt.Sprintf("index/bound %s evaluates to %d at the rejected value %d", ip.String(), val, K)
+							badPos = p.Rel(ins.Pos())
+						}
+					}
+				})
+			}
+			if bad != "" {
+				ru.Fail(key0, badPos, bad+": the value is only rejected through d.Errorf ("+p.Rel(ifi.Pos())+"), which returns under -o force=true, so the crafted input reaches this site and fq dies with an index-out-of-range panic; reject with d.Fatalf or guard the use")
+			} else {
+				ru.Ok(key0, p.Rel(ifi.Pos()), fmt.Sprintf("%d index/bound sites linear in the tested value stay in range at the rejected value", nSites))
+			}
+		}
+	}
+}
+
+func c06ValName(v ssa.Value) string {
+	for {
+		switch x := v.(type) {
+		case *ssa.Convert:
+			v = x.X
+			continue
+		case *ssa.UnOp:
+			if x.Op == token.MUL {
+				switch a := x.X.(type) {
+				case *ssa.Alloc:
+					return a.Comment
+				case *ssa.FreeVar:
+					return a.Name()
+				}
+			}
+		}
+		if v.Name() != "" && !strings.HasPrefix(v.Name(), "t") {
+			return v.Name()
+		}
+		return "value"
+	}
+}
+
+func c06ArrayLen(t types.Type) int64 {
+	u := t.Underlying()
+	if pt, ok := u.(*types.Pointer); ok {
+		u = pt.Elem().Underlying()
+	}
+	if at, ok := u.(*types.Array); ok {
+		return at.Len()
+	}
+	return -1
+}
+
+// c06Linear: the polynomial is c*atom + d (no higher-degree monomials).
+func c06Linear(p *fw.Poly, atom string) bool {
+	q := p.Sub(fw.PAtom(atom).MulC(p.Coef(atom)))
+	_, isC := q.IsConst()
+	return isC
+}
